@@ -27,9 +27,14 @@ Gen<int> wel(std::initializer_list<std::pair<std::size_t, int>> pairs) { return 
 namespace {
 
 // raw vertex argument: small values dominate (they are reduced modulo the current size)
-Gen<int> gVtx() { return gen::resize(kNominalSize, gen::weightedOneOf<int>({{8, uni(0, 6)}, {2, uni(0, 40)}, {2, uni(0, 140)}})); }
-// pair selection mode: 0 raw, 1 existing edge (orientation by parity of b), 2 existing edge flipped, 3 self-loop
-Gen<int> gMode() { return wel({{6, 0}, {3, 1}, {1, 3}, {1, 2}}); }
+// (the last alternative: indices next to word-size boundaries, which matter on the graphs with hundreds of vertices)
+Gen<int> gVtx() {
+    return gen::resize(kNominalSize, gen::weightedOneOf<int>({{8, uni(0, 6)}, {2, uni(0, 40)}, {2, uni(0, 140)}, {1, uni(0, 1400)},
+                                                              {2, gen::element(31, 32, 33, 63, 64, 65, 127, 128, 129, 255, 256, 257, 511, 512, 513)}}));
+}
+// pair selection mode: 0 raw, 1 existing edge (orientation by parity of b), 2 existing edge flipped, 3 self-loop,
+// 4 the pair of the previous pair operation, 5 the same the other way round
+Gen<int> gMode() { return wel({{6, 0}, {3, 1}, {1, 3}, {1, 2}, {3, 4}, {1, 5}}); }
 
 std::string exactWeight(int k, int wexp = 0) {
     // k/8 * 2^wexp: every such weight and every partial sum of < 2^30 of them is exactly representable;
@@ -135,8 +140,27 @@ Gen<Op> gOpOfKind(const std::string &kind, const HistCfg &h) {
                         [](const std::tuple<int, int> &t) { return mkOp("rmvtx", {S(std::get<0>(t)), S(std::get<1>(t))}); });
     if (kind == "resize")
         return gen::map(uni(0, 4), [](int k) { return mkOp("resize", {S(k)}); });
-    if (kind == "rmloops" || kind == "clear" || kind == "dedup" || kind == "badall")
+    if (kind == "rmloops" || kind == "clear" || kind == "dedup" || kind == "badall" || kind == "xrev" || kind == "xconv")
         return gen::just(mkOp(kind, {}));
+    if (kind == "churn") {
+        auto cnt = wel({{6, 3}, {3, 300}, {2, 5000}, {1, 66000}});
+        if (h.fam == 'W')
+            return gen::map(gen::tuple(gVtx(), gVtx(), gWeight(h.exact, false, h.wexp), gWeight(h.exact, false, h.wexp), cnt), [](const std::tuple<int, int, std::string, std::string, int> &t) {
+                return mkOp("churn", {S(std::get<0>(t)), S(std::get<1>(t)), "1", std::get<2>(t), std::get<3>(t), S(std::get<4>(t))});
+            });
+        return gen::map(gen::tuple(gVtx(), gVtx(), uni(0, 12), uni(0, 12), cnt), [](const std::tuple<int, int, int, int, int> &t) {
+            return mkOp("churn", {S(std::get<0>(t)), S(std::get<1>(t)), "1", S(std::get<2>(t)), S(std::get<3>(t)), S(std::get<4>(t))});
+        });
+    }
+    if (kind == "fill") {
+        if (h.fam == 'W')
+            return gen::map(gen::tuple(gVtx(), uni(2, 90), gWeight(h.exact, false, h.wexp), force), [](const std::tuple<int, int, std::string, int> &t) {
+                return mkOp("fill", {S(std::get<0>(t)), S(std::get<1>(t)), std::get<2>(t), S(std::get<3>(t))});
+            });
+        return gen::map(gen::tuple(gVtx(), uni(2, 90), uni(0, 12), force), [](const std::tuple<int, int, int, int> &t) {
+            return mkOp("fill", {S(std::get<0>(t)), S(std::get<1>(t)), S(std::get<2>(t)), S(std::get<3>(t))});
+        });
+    }
     if (kind == "bad")
         return gen::map(gen::tuple(uni(0, 64), uni(0, 3), uni(0, 4), uni(0, 64), gVtx(), gVtx()), [](const std::tuple<int, int, int, int, int, int> &t) {
             return mkOp("bad", {S(std::get<0>(t)), S(std::get<1>(t)), S(std::get<2>(t)), S(std::get<3>(t)), S(std::get<4>(t)), S(std::get<5>(t))});
@@ -182,6 +206,9 @@ Gen<Case> makeHistGen(const Cfg &cfg) {
     std::string labelsets = cfgGet(cfg, "labelsets", "");
     int zeroPct = (int)cfgInt(cfg, "zero_pct", 0);
     int bignPct = (int)cfgInt(cfg, "bign_pct", 0);
+    int hugePct = (int)cfgInt(cfg, "huge_pct", 0);
+    int sparsePct = (int)cfgInt(cfg, "sparse_pct", 0);
+    bool safetyOnly = cfgInt(cfg, "safety_only", 0) != 0;
 
     return gen::exec([=]() {
         std::string cl = *gen::resize(kNominalSize, gen::elementOf(classes));
@@ -222,8 +249,17 @@ Gen<Case> makeHistGen(const Cfg &cfg) {
             c.set("bigmult", "1");
         if (!labelsets.empty())
             c.set("labelsets", labelsets);
-        bool big = bignPct > 0 && *uni(0, 100) < bignPct;
-        if (big) {
+        if (safetyOnly)
+            c.set("safety_only", "1");
+        if (sparsePct > 0 && *uni(0, 100) < sparsePct)
+            c.set("sparse", S(*uni(2, 6)));
+        bool hugeCase = hugePct > 0 && *uni(0, 100) < hugePct;
+        bool big = !hugeCase && bignPct > 0 && *uni(0, 100) < bignPct;
+        if (hugeCase) {
+            // hundreds of vertices, light observation, short histories
+            c.set("huge", "1");
+            c.set("n0", S(*uni(129, 701)));
+        } else if (big) {
             // graphs with 33..70 vertices (bit-mask "fast paths", word-size effects); vertex arguments then use the whole range
             c.set("bign", "1");
             c.set("n0", S(*uni(33, 71)));
@@ -253,6 +289,7 @@ Gen<Case> makeHistGen(const Cfg &cfg) {
 // ---------------------------------------------------------------- C06: pairs of histories
 // cfg: classes, mix (per-history op mix)
 Gen<Case> makeEqGen(const Cfg &cfg) {
+    int eqBignPct = (int)cfgInt(cfg, "bign_pct", 0);
     std::vector<std::string> classes = splitList(cfgGet(cfg, "classes", "DS:none"), ';');
     std::vector<std::pair<int, std::string>> mix;
     for (auto &m : splitList(cfgGet(cfg, "mix", "add:50;rm:20;clear:5"), ';')) {
@@ -324,6 +361,11 @@ Gen<Case> makeEqGen(const Cfg &cfg) {
         int scenario = *wel({{3, 0}, {3, 1}, {2, 2}, {2, 3}, {2, 4}});
         c.set("scenario", std::string(1, char('a' + scenario)));
         int n0 = *gN0();
+        if (eqBignPct > 0 && *uni(0, 100) < eqBignPct && scenario != 2) {
+            // a few pairs of graphs with 66-80 vertices (degree thresholds, word-size effects); `fill` ops give large degrees
+            n0 = *uni(66, 81);
+            c.set("bign", "1");
+        }
         std::vector<Op> ops;
         auto append = [&](std::vector<Op> v) { ops.insert(ops.end(), v.begin(), v.end()); };
         if (scenario == 0 || scenario == 1) {
